@@ -896,6 +896,10 @@ class GroupBy:
         for i in range(n_values):
             slice_ = slice(i * len(group_keys), (i + 1) * len(group_keys))
             results_one_value = results[slice_]
+            result_type = results_one_value[0].dtype
+            if result_type.kind in "mM":
+                # merge datetimes / timedeltas through their integer views, as the kernels do
+                results_one_value = [r.view("int64") for r in results_one_value]
             combined = numba_funcs._build_target_for_groupby(
                 results_one_value[0].dtype,
                 func_name,
@@ -919,6 +923,8 @@ class GroupBy:
                     y_counts=result_count,
                 )
                 count[pointer] += result_count
+            if result_type.kind in "mM":
+                combined = combined.view(result_type)
             individual_results.append((combined, count))
 
         return individual_results
